@@ -2,6 +2,7 @@ import MW.Staking.Facts
 import MW.Treasury.Model
 import MW.Inv.WorldOwn
 import MW.Inv.Demo
+import MW.Staking.Interface
 /-!
 # C12 — Two-step, seven-day time-locked admin handover (both contracts)
 
@@ -445,5 +446,15 @@ example :
       ∧ (o1.accept (1000 + 604799) "q" = .error .ownershipNotReady)
       ∧ (∃ o2, o1.accept (1000 + 604800) "q" = .ok o2 ∧ o2.admin = some "q") := by
   refine ⟨_, rfl, rfl, _, rfl, rfl⟩
+
+/-- both contracts accept exactly the modelled messages (tables regenerated from /repo's sources on every run): no
+other message could reach the three ownership values -/
+theorem ownership_messages_are_the_modelled_ones :
+    MW.Generated.Interface.staking_execute = MW.Interface.model_staking_execute
+    ∧ MW.Generated.Interface.treasury_execute = MW.Interface.model_treasury_execute
+    ∧ MW.Generated.Interface.staking_entry_points = MW.Interface.model_staking_entry_points
+    ∧ MW.Generated.Interface.treasury_entry_points = MW.Interface.model_treasury_entry_points :=
+  ⟨MW.Interface.staking_execute_eq, MW.Interface.treasury_execute_eq, MW.Interface.staking_entry_points_eq,
+   MW.Interface.treasury_entry_points_eq⟩
 
 end MW.Props.C12
